@@ -1,5 +1,5 @@
 (* C16: the generated lock obligation behind the model's atomic critical sections. *)
-From Coq Require Import List String.
+From Coq Require Import List String Bool.
 Import ListNotations.
 From SE Require Import Model.Concurrency Generated.AccessTable.
 Open Scope string_scope.
@@ -10,3 +10,23 @@ Theorem C16_queue_fields_locked :
 Proof. vm_compute. reflexivity. Qed.
 Print Assumptions C16_queue_fields_locked.
 
+
+(* C16: taking the pending batch, handing it over on the channel and starting a new batch happen in
+   ONE exclusive critical section of eq.m, in the timer's flush and in Queue's threshold flush alike
+   (critical_section_exclusive: no producer can slip a newer batch in between, which is what keeps
+   per-producer order and the "no event in two batches" clause of the model's atomic steps) *)
+Theorem C16_timer_flush_one_critical_section :
+  one_section section_table "pkg/event.EventQueue.Flush" ["pkg/event.EventQueue.q"; "pkg/event.EventQueue.C"] "EventQueue.m" true = true.
+Proof. vm_compute. reflexivity. Qed.
+Print Assumptions C16_timer_flush_one_critical_section.
+
+Theorem C16_queue_one_critical_section :
+  one_section section_table "pkg/event.EventQueue.Queue" ["pkg/event.EventQueue.q"; "pkg/event.EventQueue.C"] "EventQueue.m" true = true.
+Proof. vm_compute. reflexivity. Qed.
+Print Assumptions C16_queue_one_critical_section.
+
+(* the hand-off is there at all (fail closed if the send moves somewhere the translator cannot see) *)
+Theorem C16_flush_sends :
+  existsb (fun a => String.eqb (ss_entry a) "pkg/event.EventQueue.Flush" && String.eqb (ss_loc a) "pkg/event.EventQueue.C" && ss_write a) section_table = true.
+Proof. vm_compute. reflexivity. Qed.
+Print Assumptions C16_flush_sends.
